@@ -1,5 +1,6 @@
 use crate::prop::PropDef;
 
+pub mod history;
 pub mod c01;
 pub mod c02;
 pub mod c03;
